@@ -481,18 +481,44 @@ theorem fine_linearizable (g0 : Graph V) (s : FSys V) (h : FExec F g0 s) :
   (linearizable g0 s.abs (fine_refines g0 s h)).1
 
 omit [DecidableEq V] in
+/-- the micro-steps of `Artifact(i)` of ANY processor (skipping ones included) compose to `Eval` -/
+theorem artifactTraceM_eval (g : Graph V) (hac : Acyclic F g) (i : Nat) (s : SNode V)
+    (hs : g i = .struct s) (ho : Outdated F g i = true) :
+    (artifactTraceM F i s g s.deps []).foldl (fun a f => f a) g = (Eval F g i).1 := by
+  obtain ⟨rank, hwf⟩ := hac
+  have hgen : ∀ (ds : List Nat) (g1 : Graph V) (acc : List (Option V)),
+      (artifactTraceM F i s g1 ds acc).foldl (fun a f => f a) g1 =
+        (pullM (Eval F) s.reads g1 ds acc).1.set i
+          (.struct (s.executed (pullM (Eval F) s.reads g1 ds acc).1 (pullM (Eval F) s.reads g1 ds acc).2.1)) := by
+    intro ds
+    induction ds with
+    | nil => intro g1 acc; simp [artifactTraceM, pullM]
+    | cons d ds ih =>
+      intro g1 acc
+      simp only [artifactTraceM, pullM]
+      split
+      · simp only [List.foldl_cons]
+        rw [ih]
+      · rw [ih]
+  rw [Eval_eq g hwf, hs]
+  simp only [ho, if_true]
+  rw [hgen]
+
+
+omit [DecidableEq V] in
 /-- the side condition of `FStep.finish` ("the owner's micro-steps compose to the sequential effect
     of its call") holds for the programs of the three entry points: a single step for
     `UpdateParameter` / `ParameterData` (and for an `Artifact` whose producer is processed), the
-    trace `artifactTrace` for an `Artifact` whose producer is outdated -/
-theorem programs_correct (g : Graph V) (hac : Acyclic F g) (hra : ReadsAll g) (c : Call V) :
+    trace `artifactTraceM` for an `Artifact` whose producer is outdated — any processor, skipping
+    ones included -/
+theorem programs_correct (g : Graph V) (hac : Acyclic F g) (c : Call V) :
     [fun a => (seqStep F a c).1].foldl (fun a f => f a) g = (seqStep F g c).1 ∧
     ∀ i s, c = .artifact i → g i = .struct s → Outdated F g i = true →
-      (artifactTrace F i s g s.deps []).foldl (fun a f => f a) g = (seqStep F g c).1 := by
+      (artifactTraceM F i s g s.deps []).foldl (fun a f => f a) g = (seqStep F g c).1 := by
   refine ⟨rfl, ?_⟩
   intro i s hc hs ho
   subst hc
-  exact artifactTrace_eval g hac hra i s hs ho
+  exact artifactTraceM_eval g hac i s hs ho
 
 theorem dia_init : Init 4 dia := by
   refine ⟨⟨fun i => if i < 4 then i else 0, ?_, ?_⟩, ?_⟩
